@@ -24,6 +24,10 @@ int_t await(volatile int_t *status)
 
     /* randnum = ( random() & 0xff ); */
     randnum = 0;
+#ifdef SLU_MT_VERIF
+    while ( *status && slu_mt_verif_hook )
+	SLU_MT_VERIF_EVENT(SLU_EV_SPIN, -1, 0, 0, 0, status);
+#endif
     while ( *status ) ;
 #if 0
     {
